@@ -514,3 +514,110 @@ func (e *Engine) siblingCopyResult() *FuncResult {
 	res.Obligs = ctx.obligs
 	return res
 }
+
+// ruleGlueResult (C17): the glue that applies option rules replaces the options of EVERY builder by the list
+// it just built, whatever that list contains - an empty list is how a builder whose options were all omitted
+// is dismissed. Structural obligation over go/ssa: in applyOptionRules there is a store into
+// builders[i].Options inside the loop over the builders, and it lies on every path around that loop (its
+// block dominates every back edge of the innermost loop that contains it): no `continue` skips it.
+func (e *Engine) ruleGlueResult() *FuncResult {
+	ctx := newCtx(e, e.anyFunction())
+	ctx.fnKey = "c17-rule-glue"
+	res := &FuncResult{Key: "c17-rule-glue", Ctx: ctx}
+	key := "rewrite.(*Rewriter).applyOptionRules"
+	fn := e.fnByKey[key]
+	ok := false
+	if fn != nil {
+		f := &Frame{ctx: ctx, fn: fn, tmap: TMap{}, vals: map[ssa.Value]Val{}}
+		f.analyzeLoops()
+		for _, b := range fn.Blocks {
+			for _, in := range b.Instrs {
+				st, isSt := in.(*ssa.Store)
+				if !isSt {
+					continue
+				}
+				fa, isFA := st.Addr.(*ssa.FieldAddr)
+				if !isFA {
+					continue
+				}
+				pt, isP := fa.X.Type().Underlying().(*types.Pointer)
+				if !isP {
+					continue
+				}
+				nt, isN := pt.Elem().(*types.Named)
+				if !isN || nt.Obj().Name() != "Builder" || nt.Underlying().(*types.Struct).Field(fa.Field).Name() != "Options" {
+					continue
+				}
+				if _, isIA := fa.X.(*ssa.IndexAddr); !isIA {
+					continue
+				}
+				// innermost loop containing the store
+				var inner *loopInfo
+				for _, li := range f.loops {
+					if li.body[b] && (inner == nil || len(li.body) < len(inner.body)) {
+						inner = li
+					}
+				}
+				if inner == nil {
+					continue
+				}
+				all := len(inner.backs) > 0
+				for _, back := range inner.backs {
+					if !(b == back || b.Dominates(back)) {
+						all = false
+					}
+				}
+				if all {
+					ok = true
+				}
+			}
+		}
+	}
+	ctx.addOblig("flow", key+":every-builder-gets-the-options-the-rule-produced", BoolLit(ok), "internal/veneers/rewrite/rewrite.go")
+	res.Obligs = ctx.obligs
+	return res
+}
+
+// composedConstructorResult (C17): every builder compose_builders creates appends its own plugin-type
+// assignment to its constructor; it must start from its own copy of the source builder's constructor (a
+// struct copy shares the Args / Assignments backing arrays, and with spare capacity two composed builders
+// write the same slot). Structural obligation: every value stored into the Constructor field of a builder
+// literal in composeBuilderForType is the result of (*Constructor).DeepCopy.
+func (e *Engine) composedConstructorResult() *FuncResult {
+	ctx := newCtx(e, e.anyFunction())
+	ctx.fnKey = "c17-composed-constructor"
+	res := &FuncResult{Key: "c17-composed-constructor", Ctx: ctx}
+	key := "builder.composeBuilderForType"
+	fn := e.fnByKey[key]
+	n, ok := 0, fn != nil
+	if fn != nil {
+		for _, b := range fn.Blocks {
+			for _, in := range b.Instrs {
+				st, isSt := in.(*ssa.Store)
+				if !isSt {
+					continue
+				}
+				fa, isFA := st.Addr.(*ssa.FieldAddr)
+				if !isFA {
+					continue
+				}
+				pt, isP := fa.X.Type().Underlying().(*types.Pointer)
+				if !isP {
+					continue
+				}
+				nt, isN := pt.Elem().(*types.Named)
+				if !isN || nt.Obj().Name() != "Builder" || nt.Underlying().(*types.Struct).Field(fa.Field).Name() != "Constructor" {
+					continue
+				}
+				n++
+				c, isCall := st.Val.(*ssa.Call)
+				if !isCall || c.Call.StaticCallee() == nil || funcKey(c.Call.StaticCallee()) != "ast.(*Constructor).DeepCopy" {
+					ok = false
+				}
+			}
+		}
+	}
+	ctx.addOblig("flow", key+":the-composed-builder-starts-from-its-own-copy-of-the-source-constructor", BoolLit(ok && n > 0), "internal/veneers/builder/rules.go")
+	res.Obligs = ctx.obligs
+	return res
+}
